@@ -32,8 +32,9 @@ def main():
     ap.add_argument("--tier", default="quick")
     ap.add_argument("--budget-scale", type=float, default=0.5)
     ap.add_argument("--repo", default="/repo")
+    ap.add_argument("--set", default="mutants", help="mutants (must be caught: exit 1) or benign (behaviour-preserving changes: must pass, exit 0)")
     a = ap.parse_args()
-    muts = json.load(open(os.path.join(VERIF, "sim", "mutants", "mutants.json")))
+    muts = json.load(open(os.path.join(VERIF, "sim", "mutants", a.set + ".json")))
     only = set(x for x in a.only.split(",") if x)
     results = []
     for m in muts:
@@ -63,8 +64,8 @@ def main():
         finally:
             shutil.rmtree(scratch, ignore_errors=True)
     caught = sum(1 for r in results if r["rc"] == 1)
-    print("caught %d of %d" % (caught, len(results)))
-    out = os.path.join(VERIF, "sim", "mutants", "results.json")
+    print("%s: exit 1 for %d of %d, exit 0 for %d" % (a.set, caught, len(results), sum(1 for r in results if r["rc"] == 0)))
+    out = os.path.join(VERIF, "sim", "mutants", "results.json" if a.set == "mutants" else "results_%s.json" % a.set)
     if not only:
         json.dump(results, open(out, "w"), indent=1)
 
